@@ -201,6 +201,9 @@ class SymbolKindTable:
                         tbl[name] = kind
 
         else:
+            # A newly known kind may refine kinds that were inferred from
+            # partial information (e.g. sums), so it counts as a change.
+            self._changed = True
             tbl[name] = kind
 
     def get(self, phase_name, name):
